@@ -443,7 +443,7 @@ def gen_graph(rng, max_nodes, max_depth):
         nodes.append(nd)
         hashable.append(need_hash)
         child_hash = need_hash or kind in ("set", "frozenset")
-        width = rng.choice([0, 1, 1, 2, 2, 3, 4]) if depth > 0 else rng.choice([1, 2, 3, 4, 5])
+        width = rng.choice([0, 1, 2, 2, 3, 3, 4]) if depth > 0 else rng.choice([1, 2, 3, 4, 5, 6])
         keys = set()
         anc2 = anc + [(idx, kind)]
         for _ in range(width):
@@ -479,7 +479,7 @@ def gen_graph(rng, max_nodes, max_depth):
                     cands.append(i)
             if cands:
                 return ["N", rng.choice(cands)]
-        if r < 0.62 or depth >= max_depth or len(nodes) >= max_nodes:
+        if r < 0.52 or depth >= max_depth or len(nodes) >= max_nodes:
             return ["L", gen_leaf(rng)]
         return new_node(depth, need_hash, anc)
 
@@ -513,10 +513,11 @@ def generate(rng, tier, n):
         else:
             big = tier == "thorough" and rng.random() < 0.3
             while True:
-                nodes, root = gen_graph(rng, rng.choice([3, 5, 8, 12, 20 if big else 12]), rng.choice([2, 3, 4, 6]))
+                nodes, root = gen_graph(rng, rng.choice([4, 6, 8, 12, 20 if big else 12]), rng.choice([2, 3, 4, 6]))
                 if buildable(nodes):
                     break
-        yield {"nodes": nodes, "root": root, "visit": gen_prog(rng), "query": gen_pred(rng)}
+        yield {"nodes": nodes, "root": root, "visit": gen_prog(rng),
+               "query": ["true"] if rng.random() < 0.35 else gen_pred(rng)}
 
 
 # --------------------------------------------------------------------------
